@@ -34,6 +34,29 @@ def big_values(k, limbs):
     return sorted(vals, key=lambda x: (abs(x).bit_length(), abs(x), x < 0))
 
 
+LADDER_Q = [4, 5, 8, 9, 16, 17, 32, 33]
+LADDER_T = [4, 5, 7, 8, 9, 15, 16, 17, 31, 32, 33, 63, 64, 65, 127, 128, 129]
+
+
+def ladder_magnitudes(sizes):
+    """three magnitudes per limb count: all ones, 2^(32(n-1)) + 1, and a dense pattern"""
+    out = []
+    for n in sizes:
+        out.append((1 << (32 * n)) - 1)
+        out.append((1 << (32 * (n - 1))) + 1)
+        out.append(R.from_limbs([((0x9E3779B1 * (i + 1)) & 0xFFFFFFFF) | 1 for i in range(n)]))
+    return out
+
+
+def ladder_values(tier):
+    """operands whose limb count crosses 8, 16, 32 (thorough: 64, 128) - the sizes at which a fast path would switch"""
+    vals = {0, 1, -1, 3, (1 << 32) - 1, 1 << 32, -((1 << 64) + 1)}
+    for m in ladder_magnitudes(LADDER_Q if tier == 'quick' else LADDER_T):
+        vals.add(m)
+        vals.add(-m)
+    return sorted(vals, key=lambda x: (abs(x).bit_length(), abs(x), x < 0))
+
+
 def ctor_values():
     s = {0, ISIZE_MAX, ISIZE_MIN}
     for k in range(0, 64):
@@ -122,6 +145,8 @@ def c05_rows(values, rows, text_bits):
             for op in BIN_OPS:
                 if op in ('div', 'rem') and b == 0:
                     continue
+                if op == 'gcd' and min(abs(a), abs(b)).bit_length() > 1100:
+                    continue        # Euclid on the implementation's bit-search division: seconds per pair
                 e = big_expected(op, a, b)
                 want_text = abs(e).bit_length() <= text_bits
                 r = ['num', 'bop', op, i, j, T, R.lit(e)]
@@ -266,6 +291,8 @@ def run_c05(tier):
         values2 = sorted(set(big_values(6, [0, (1 << 32) - 1])) | set(big_values(5, [0, 1, (1 << 32) - 1])),
                          key=lambda x: (abs(x).bit_length(), abs(x), x < 0))
         tasks += [(values2, list(range(i, min(i + 4, len(values2)))), text_bits) for i in range(0, len(values2), 4)]
+    values3 = ladder_values(tier)
+    tasks += [(values3, list(range(i, min(i + 4, len(values3)))), 10000) for i in range(0, len(values3), 4)]
     collect(st, pmap(c05_rows, tasks))
     collect(st, pmap(c05_singles, [(single_k, L5 if tier == 'quick' else L8, text_bits)]))
     collect(st, pmap(c05_closure, [(seeds, True)]))
@@ -278,6 +305,8 @@ def run_c05(tier):
                 'result compared with Python int via == against from_vec(expected), sign/zero/low-limb observers '
                 'and decimal text for results up to %d bits' % text_bits,
         'scope': {'distinct_operand_values': len(values), 'long_operand_values_second_grid': len(values2),
+                  'size_ladder_grid': {'values': len(values3), 'limb_counts': LADDER_Q if tier == 'quick' else LADDER_T,
+                                       'decimal_text_compared_up_to_bits': 10000},
                   'ordered_pairs': st.n.get('pairs', 0),
                   'ops': list(BIN_OPS) + ['==', 'partial_cmp', 'neg', 'minus', 'from_vec', 'new'],
                   'limb_alphabet': 'L5=%r%s' % (L5, '' if tier == 'quick' else ' and L8=%r' % L8),
@@ -314,6 +343,25 @@ def rat_alphabet(tier):
         for q in qs:
             items.append((p, q))
     return items
+
+
+def ladder_rationals(tier, small=False):
+    """(p, q) pairs whose parts have 4..17 (thorough: ..65) limbs: the sizes at which a fast path would switch"""
+    sizes = [4, 8, 9, 16, 17] if tier == 'quick' else [4, 5, 8, 9, 16, 17, 32, 33, 64, 65]
+    if small:           # the arithmetic grid pays a multi-limb gcd per operation
+        sizes = [4, 9, 17] if tier == 'quick' else [4, 5, 8, 9, 16, 17, 32, 33]
+    out = [(0, 1), (1, 1), (-1, 2), (3, 1 << 32)]
+    for n in sizes:
+        mags = ladder_magnitudes([n])
+        for m in mags:
+            for q in (1, 3, (1 << 32) + 1):
+                out.append((m, q))
+                out.append((-m, q))
+            out.append((1, m))
+            out.append((-7, m))
+        out.append((mags[2], ladder_magnitudes([n - 1])[2]))
+        out.append((-mags[0], mags[2]))
+    return out
 
 
 def exp_num_obs(v):
@@ -381,7 +429,7 @@ def _check_num_result(st, prop, sh_resps, it, v_exp, case, klass):
 
 
 @guard_task('C06', 'num')
-def c06_rows(pairs, rows, text_bits):
+def c06_rows(pairs, rows, text_bits, chk=True):
     st = Stats()
     sh = shim()
     vals = load_rationals(sh, st, 'C06', pairs, check_ctor=(rows and rows[0] == 0))
@@ -396,7 +444,7 @@ def c06_rows(pairs, rows, text_bits):
                 e = R.n_add(a, b) if op == 'add' else R.n_mul(a, b)
                 reqs.append(('num', 'nop', op, i, j, T))
                 meta.append(('nop', op, b, e))
-                if e is not None:
+                if e is not None and chk:
                     reqs.append(('num', 'nchk', T) + spellings(e))
                     meta.append(('nchk', op, b, e))
                 if e is None or max(abs(e.numerator).bit_length(), e.denominator.bit_length()) <= text_bits:
@@ -597,9 +645,12 @@ def run_c06(tier):
     nvals = len(set(Fraction(p, q) for p, q in pairs)) + 1
     chunk = 4 if tier == 'quick' else 2
     tasks = [(pairs, list(range(i, min(i + chunk, nvals))), 130) for i in range(0, nvals, chunk)]
+    pairs2 = ladder_rationals(tier, small=True)
+    nvals2 = len(set(Fraction(p, q) for p, q in pairs2)) + 1
+    tasks += [(pairs2, list(range(i, min(i + 2, nvals2))), 10000, False) for i in range(0, nvals2, 2)]
     collect(st, pmap(c06_rows, tasks))
     seeds = CLOSURE_SEEDS if tier == 'quick' else CLOSURE_SEEDS_T
-    collect(st, pmap(_c06_misc, [('unary', pairs, None, None), ('closure', None, seeds, True)]))
+    collect(st, pmap(_c06_misc, [('unary', pairs, None, None), ('unary', pairs2, None, None), ('closure', None, seeds, True)]))
     cov = {
         'states': nvals + st.n.get('closure_total', 0),
         'transitions': st.n.get('transitions', 0),
@@ -609,6 +660,8 @@ def run_c06(tier):
                 'Fraction via == against from_big_num of the canonical and of a non-reduced spelling, is_pos/is_nan, '
                 'canonical text',
         'scope': {'distinct_values_incl_nan': nvals, 'ordered_pairs': st.n.get('pairs', 0),
+                  'size_ladder_grid': {'values': nvals2, 'limbs': '4, 9, 17' if tier == 'quick' else '4..33',
+                                       'note': 'second grid, all ordered pairs, sign/NaN observers and the full canonical text compared'},
                   'numerators_abs': [str(p) for p in P_ABS], 'denominators': [str(q) for q in Q_SET],
                   'ops': ['add', 'mul', '+=', '*=', 'neg', 'minus', 'flip', 'floor', 'is_pos', 'is_nan', 'Display',
                           'new', 'from_num', 'from_big_num'],
@@ -766,6 +819,9 @@ def run_c07(tier):
     chunk = 8
     tasks = [('rows', pairs, list(range(i, min(i + chunk, nvals)))) for i in range(0, nvals, chunk)]
     tasks.append(('calc', pairs, None))
+    pairs2 = ladder_rationals(tier)
+    nvals2 = len(set(Fraction(p, q) for p, q in pairs2)) + 1
+    tasks += [('rows', pairs2, list(range(i, min(i + 8, nvals2)))) for i in range(0, nvals2, 8)]
     collect(st, pmap(_c07_task, tasks))
     cov = {
         'states': nvals,
@@ -775,6 +831,7 @@ def run_c07(tier):
         'rule': 'state = rational value or NaN; transition = partial_cmp/== on an ordered pair, or one area::calc '
                 'evaluation (area shape x count x popped values); oracle = Fraction order, unordered iff NaN involved',
         'scope': {'distinct_values_incl_nan': nvals, 'ordered_pairs': st.n.get('pairs', 0),
+                  'size_ladder_grid_values': nvals2,
                   'calc_cases': st.n.get('calc_cases', 0), 'calc_counts': CALC_COUNTS, 'calc_areas': CALC_AREAS},
         'distinct_outcomes': sorted(st.sets.get('outcomes', ()))[:40],
         'samples': [{'cmp': ['5', '10'], 'expected': 'L'}, {'cmp': ['1/2', '1/3'], 'expected': 'G'},
@@ -858,6 +915,14 @@ def c09_values(base, tier):
         for d in (-1, 0, 1):
             s.add(base ** k + d)
             s.add(-(base ** k + d))
+    # digit counts and limb counts at which a chunked conversion would switch
+    for k in ((63, 64, 65, 128, 129) if tier == 'quick' else (31, 32, 33, 63, 64, 65, 127, 128, 129, 255, 256, 257)):
+        for d in (-1, 0, 1):
+            s.add(base ** k + d)
+            s.add(-(base ** k + d))
+    for m in ladder_magnitudes([4, 8, 9, 16, 17] if tier == 'quick' else LADDER_T):
+        s.add(m)
+        s.add(-m)
     for d in range(base):
         for rep in (1, 2, 9, 33):
             n = int(R.DIGITS[d] * rep, base)
@@ -915,7 +980,7 @@ def run_c09(tier):
     st = Stats()
     tasks = [('base', b, tier) for b in range(2, 37)]
     tasks.append(('closure', CLOSURE_SEEDS if tier == 'quick' else CLOSURE_SEEDS_T, True))
-    fr = fragile_rationals()
+    fr = fragile_rationals() + [Fraction(p, q) for p, q in ladder_rationals(tier)]
     for i in range(0, len(fr), 30):
         tasks.append(('fragile', fr[i:i + 30], None))
     collect(st, pmap(_c09_task, tasks))
